@@ -32,6 +32,12 @@ def run(ctx):
     cfgs = ["base", "wl2", "follow_funcsyn_wl2"] if ctx.tier == "quick" else ["base", "wl1", "wl2", "follow_funcsyn_wl2", "noptr"]
     n = 700 if ctx.tier == "quick" else 8000
     built = gensrv.build_matrix(ctx, "exec", cfgs)
+    # binding mode 2: plain struct fields are never deferred (object.gotpl defers only resolver-backed fields)
+    try:
+        built["mixed:base"] = gensrv.build_server(ctx, "exec", "base", mixed=True)
+    except RuntimeError as e:
+        built["mixed:base"] = e
+    cfgs = list(cfgs) + ["mixed:base"]
     dist = Counter()
     nontriv = set()
     total = 0
